@@ -1,6 +1,65 @@
 package rules
 
-import "gofasta-verif/core"
+import (
+	"go/types"
 
-// c18Evaluated: rows decided by abstract evaluation (filled in as the shared evaluations are built).
-func c18Evaluated(c *core.Ctx) {}
+	"gofasta-verif/core"
+	"gofasta-verif/eval"
+)
+
+// c18Evaluated: rows of the obligation table decided by abstract evaluation.
+func c18Evaluated(c *core.Ctx) {
+	ev0 := newEval(c)
+	tabs := extractTables(c, ev0, "T/tables")
+	if tabs.OK {
+		// unequal rows / non-IUPAC symbol / empty / no header in every FASTA reader; blank lines do not crash
+		checkReaders(c, tabs, "T/fasta/", false)
+	}
+	// CSV that is empty or not `updown list` output
+	checkCSVValidation(c, "T")
+	// window coordinates
+	checkSamCheckArgs(c, "T")
+	// no size/dist option
+	c08CheckArgs(c)
+	// reference vs alignment width in the per-record workers
+	checkWorkerWidth(c, tabs)
+	// SAM reader: a reader that cannot be created must be reported and nothing else done
+	checkSamReaderFailure(c)
+}
+
+// checkWorkerWidth: a record whose width differs from the reference's is reported on the error channel.
+func checkWorkerWidth(c *core.Ctx, tabs *Tables) {
+	if tabs == nil || !tabs.OK {
+		return
+	}
+	for _, w := range []struct{ pkg, name string }{{"pkg/snps", "getSNPs"}, {"pkg/updown", "getLines"}, {"pkg/variants", "getVariants"}} {
+		fn := c.LookupFunc(w.pkg, w.name)
+		key := "T/reference-alignment-width/" + w.name
+		if fn == nil {
+			c.Und(key, 0, "UNRESOLVED anchor %s", w.name)
+			continue
+		}
+		ev := newEval(c)
+		dom := tabs.domain(false)
+		ev.Domain = func(s eval.AbsSeq) []eval.Value { return codeValues(dom) }
+		args := bindWorker(c, fn, eval.Sym("L").Add(eval.K(1)), func(i int, p *types.Var) eval.Value {
+			// offset tables of getVariants: their length is the alignment width
+			if sl, ok := p.Type().Underlying().(*types.Slice); ok {
+				if b, ok := sl.Elem().Underlying().(*types.Basic); ok && b.Kind() == types.Int {
+					return eval.AbsSeq{Name: p.Name(), Len: eval.Sym("L")}
+				}
+			}
+			return nil
+		})
+		if args.errs == nil {
+			c.Und(key, fn.Pos(), "worker has no error channel")
+			continue
+		}
+		_, err := ev.CallFunc(fn, args.args...)
+		if err != nil && len(args.errs.Sent) == 0 {
+			c.Und(key, fn.Pos(), "cannot evaluate: %v", err)
+			continue
+		}
+		c.Ob(key, len(args.errs.Sent) >= 1, fn.Pos(), "a record one column wider than the reference is not reported as an error")
+	}
+}
